@@ -1,52 +1,3 @@
-import os
-import re
-import subprocess
-import tempfile
-
-_COQ = os.path.join(os.path.dirname(os.path.dirname(os.path.abspath(__file__))), "coq")
-
-
-def _only_position_disagrees(record):
-    """re-evaluate the case in Coq with the position flag forced to true: no mismatch left <=> events and host
-    result agree with the model and the throw-site position is the only disagreement"""
-    term = (record.get("coq") or "").rstrip()
-    if not term.endswith(" false"):
-        return False
-    term = term[: -len(" false")] + " true"
-    d = tempfile.mkdtemp(prefix="c14pred")
-    v = os.path.join(d, "P.v")
-    with open(v, "w") as f:
-        f.write("From Coq Require Import List ZArith NArith String Ascii.\nImport ListNotations.\n"
-                "Require Import Verif.C14.Run.\nDefinition M := Eval vm_compute in mismatch_ids [(%s)].\nPrint M.\n" % term)
-    try:
-        p = subprocess.run(["coqc", "-Q", _COQ, "Verif", v], stdout=subprocess.PIPE, stderr=subprocess.STDOUT,
-                           text=True, timeout=120)
-    except Exception:
-        return False
-    finally_out = p.stdout if p.returncode == 0 else ""
-    for fn in os.listdir(d):
-        os.unlink(os.path.join(d, fn))
-    os.rmdir(d)
-    return re.search(r"M\s*=\s*\[\s*\]\s*:\s*list N", finally_out) is not None
-
-
-def _forof_rethrow_by_value(case, record, expected_text):
-    """C14-N2 recogniser.  Narrow: (1) the chain has a JS frame that drives a generator body with a script for-of,
-    (2) the payload is a non-Error value thrown by a JS throw statement, (3) the harness found the top stack frame at
-    that for-of statement instead of the throw site, (4) that position is the ONLY disagreement: with the position
-    flag forced to true the case agrees with the model (re-evaluated in Coq)."""
-    frames = list(case.get("ops") or []) + list(case.get("post") or [])
-    if not any(f.get("k") == "js" and f.get("body") == "gen-forof" for f in frames):
-        return False
-    th = case.get("th") or {}
-    v = th.get("v") or {}
-    if th.get("t") != "jsthrow" or not (v.get("kind") == "prim" or (v.get("kind") == "obj" and v.get("p", 0) == 0)):
-        return False
-    if "POSITION: AT-FOROF-STATEMENT" not in (record.get("obs") or ""):
-        return False
-    return _only_position_disagrees(record)
-
-
 CFG = {
     "id": "C14",
     "harness": "c14",
@@ -60,14 +11,14 @@ CFG = {
              "combination) and native frames (entry convention fc|refl|reflerr|ctor|proxy|dyn|getter × call-back convention "
              "callable|ctor|runstring|exporterr|exportnoerr|get|tryget|forof × error handling panic(err)|panic(ex.Value())|"
              "panic(wrap)|return err|return wrap|return join), optional promise-job boundary (Promise.then or an async function body), generator bodies driven by next()/for-of/Runtime.ForOf (each body suspends inside a try, leaves it, suspends again, then makes the call), 8 embedder entry conventions, "
-             "12 thrower kinds cycled deterministically (JS throw of 14 primitives / 7 object classes / GoError, goja-internal "
+             "12 thrower kinds cycled deterministically (JS throw of 14 primitives / 7 object classes / GoError and host-built Error objects (NewTypeError, New(Error), NewGoError made while nothing runs; reaching the throw statement through a global, a native's return value or an argument), goja-internal "
              "Type/Range/Reference/SyntaxError, stack overflow, native panic(Value), panic(*Exception), returned/panicked Go "
              "errors: sentinels, custom type, %w-wrapped, errors.Join'ed, wrapped *Exception, stale Interrupted/StackOverflow, "
              "foreign panics, live Interrupt); non-trivial = at least one native frame and (a JS try frame or a second native "
              "frame); distinct = by hash of the case"),
     "theorem_names": ["identity_preserved", "identity_preserved_host", "errobj_stack_preserved", "goerror_recoverable",
                       "goerror_recoverable_host", "goerror_catchable", "uncatchable_invisible", "uncatchable_host",
-                      "uncatchable_invisible_case", "join_stays_uncatchable", "suspended_body_transparent", "foreign_propagates", "foreign_host",
+                      "uncatchable_invisible_case", "join_stays_uncatchable", "suspended_body_transparent", "hostbuilt_error_stack_at_throw", "foreign_propagates", "foreign_host",
                       "plain_error_panic_propagates", "rethrow_identity", "job_exception_contained"],
     "allowed_axioms": [],
     "trusted_base": [
@@ -85,7 +36,7 @@ CFG = {
         "iterator return() / generator frames during uncatchable unwinding belong to C08/C03 (F12, F16), not to this model",
         "the implementation is tied to the model only on the generated chains (correspondence), not by proof",
     ],
-    "predicates": {"C14.forof_rethrow_by_value_loses_throw_site": _forof_rethrow_by_value},
+    "predicates": {},
     "manifest": {
         "text": ("proof: over a Gallina transcription of goja's panic-payload classification at every Go/JS boundary, for call chains "
                  "of ANY length (induction on the chain) and every frame convention: a thrown value is received as the same value by "
@@ -94,7 +45,7 @@ CFG = {
                  "in script (goerror_recoverable, goerror_catchable); Interrupted/StackOverflow errors reach no catch, finally or "
                  "rejection handler (uncatchable_invisible, for every chain incl. errors.Join'ing natives since fix 63ed9d0); a "
                  "foreign panic crosses every chain unchanged (foreign_propagates); catch-and-rethrow preserves the value and a frame "
-                 "without catch passes on the very same *Exception (rethrow_identity). 16 theorems, no axioms. The model is tied to "
+                 "without catch passes on the very same *Exception (rethrow_identity). 17 theorems, no axioms. The model is tied to "
                  "/repo on every run by building 3000 (quick) / 200000 (thorough) chains as real JS + Go closures and comparing what "
                  "every catch/finally/rejection handler/Go caller/embedder observed with the model evaluated by vm_compute; the "
                  "throw-site position of the top stack frame is checked by the harness."),
